@@ -11,3 +11,14 @@ func verifStep(step, path string) {
 		VerifStepHook(step, path)
 	}
 }
+
+// VerifSkipIDs advances the process-wide message id counter by n (the counter wraps at 10000), so
+// that the harness can place a history across the wrap.
+func VerifSkipIDs(n int) {
+	for i := 0; i < n; i++ {
+		<-countChannel
+	}
+}
+
+// VerifNextID reports the counter value the next message id will carry, consuming it.
+func VerifNextID() int { return <-countChannel }
